@@ -199,7 +199,7 @@ class C09(Check):
                 self.stats["multi_fault_cases"] += 1
             if r["ok"]:
                 self.absorb(j, r)
-                if len(samples) < 5 and r["res"]["tested"] > 0 and rng.random() < 0.02:
+                if j["kind"] != "prog" and len(samples) < 5 and r["res"]["tested"] > 0 and rng.random() < 0.02:
                     samples.append({"kind": j["kind"], "args": j["args"], "tested": r["res"]["tested"], "rejected": r["res"]["rejected"],
                                     "usable": r["res"]["usable"]})
                 continue
